@@ -7,6 +7,10 @@ Domain : (1) every .co file shipped in the repository (library, examples, docs, 
              1-4 branches, break/continue nested in if/while/when blocks, and return / return $v / stop / abort as the last
              statement of any block (every when branch independently: as drawn / exit appended / exit alone; a third of the
              flows end with a when chain, at top level or at the end of a trailing if / else block); `define flow` and `define subflow`;
+             value-generation statements `$x = ...` (compiled into a generate_value action) in every block - top level, if / else,
+             while, when branch; first, middle or last statement - without instructions (nothing or a blank line above), or with an
+             instructions comment above (control); every text parsed with or without source mapping (the loader's mode / the mode
+             in which comments never reach the compiler);
          (4) generated Colang 2.x loop programs (own JSON AST): while loops nested up to 3 deep whose bodies are, per loop, either
              'bare' (only statements the expansion leaves untouched: match <event>, assignments, send <event>, log, print, match
              $ref.Finished() - plus if/elif/else chains and loops) or 'mixed' (also await/start/activate/groups/when/pass);
@@ -29,7 +33,9 @@ Domain : (1) every .co file shipped in the repository (library, examples, docs, 
              if / elif / else, while, break / continue, when; group-leg statements; plain bodies as control), with / without a flow
              parameter, optionally referring to a flow added before (await / start / when / or-group / activate / $w = await) or
              taking the name of a flow of an earlier event that is removed first;
-         (9) six enumerated families: Colang 1.0 goto fan-in (2-3 gotos to one label x 5 site shapes x forward / backward / both
+         (9) seven enumerated families: Colang 1.0 value generation (`$name = ...` x nothing / blank line / comment above x only / first /
+             middle / last statement of its block x 9 blocks x flow end / followed / jumped over by a goto x source mapping on / off),
+             Colang 1.0 goto fan-in (2-3 gotos to one label x 5 site shapes x forward / backward / both
              sides x label / checkpoint x label at top level / in a block x with / without a second label), Colang 2.x
              expansion-raises (18 rejected statements x 7 places x bad flow first / middle / last of three x rich / primitive rest),
              Colang 1.0 when chains (2-3 branches x ending of every branch x 9 surroundings),
@@ -66,7 +72,7 @@ LEVEL = "exploration"
 CASE_TIMEOUT = 60
 RULE = (
     "enumerated: every *.co under the repository (version from the nearest config.yml / file name / library location; 2.x files are "
-    "compiled together with the standard library and their sibling files); family when-in-loop: a Colang 1.0 when block (1-2 branches) inside a while body x a break / continue in front of the block, inside a branch (first / last statement) and behind it x loop at the flow end / followed / nested in an outer loop (264 cases); family when-exit: Colang 1.0 when / else when chains of 2-3 "
+    "compiled together with the standard library and their sibling files); family ellipsis: one Colang 1.0 value-generation statement `$name = ...` x what stands right above it (nothing / a blank line / an instructions comment = control) x only / first / middle / last statement of its block x 9 blocks (top level, if block without / with else, else block, while body, if block in front of a break inside a while body, first / last branch of a when chain, while body inside an if block) x the block at the flow end / followed by a statement / between a `goto` and its label x parsed with / without source mapping (648 cases, enumerated first); family when-in-loop: a Colang 1.0 when block (1-2 branches) inside a while body x a break / continue in front of the block, inside a branch (first / last statement) and behind it x loop at the flow end / followed / nested in an outer loop (264 cases); family when-exit: Colang 1.0 when / else when chains of 2-3 "
     "branches x each branch ending with nothing / return / return $v / stop x exit with or without statements in front x 9 surroundings "
     "(last statement group of the flow, followed by 1 or 3 statements, end of a while body with / without statements behind the loop, end of "
     "an if block with / without else, end of an else block, end of a branch of an outer when); family loop-exit: one Colang 2.x while loop "
@@ -98,7 +104,9 @@ RULE = (
     "generated: co2 programs (depth<=3 nesting of if/while/when, groups, break/continue, flows with parameters); co1 programs when the "
     "module is present; Colang 1.0 texts (label/checkpoint, goto, if/else, while with break/continue, when chains of 1-4 branches, return / "
     "return $v / stop / abort closing any block, every when branch independently as drawn / exit appended / exit alone, a third of the flows "
-    "ending with a when chain, flow or subflow; goto plan per flow: 'spread' = 0-2 gotos each to any label of the flow, or - a third of the "
+    "ending with a when chain, flow or subflow; value generation `$g = ...` is one of the statements of every block (top level, if / else, while, when branch; any position, so also "
+    "last statement of a block / of the flow): 3 in 6 bare, 1 in 6 with a blank line above, 2 in 6 with an instructions comment above; every text is parsed with or without source mapping (drawn; "
+    "only with it a comment reaches the compiler as instructions); goto plan per flow: 'spread' = 0-2 gotos each to any label of the flow, or - a third of the "
     "flows - 'fan-in' = 2-4 gotos to ONE label, all in front of it / all behind it / alternating sides, inserted at any line, i.e. at top "
     "level and inside if / while / when blocks; a flow without label gets one in front of or behind its body); Colang 2.x loop programs (1-3 top-level loops nested up to 3 deep, each loop drawn 'bare' - "
     "only statements that need no expansion plus if chains and loops - or 'mixed' with await/start/activate/groups/when/pass; if/elif/else "
@@ -123,7 +131,8 @@ RULE = (
     "flow configs are read from the returned State. Every other generated 2.x program is compiled twice from the same parsed flows and "
     "a further state is initialised on the flow configs of the second compilation. "
     "Shares are visible in the labels (goto-same-label>=2, goto-forward-same-label>=2 [/in-block], >=3, goto-backward-same-label>=2, "
-    "goto-both-sides-of-label; bad-flows0|1|2, bad:<keyword>[-group], bad-in:top|while|if|elif|else|when, bad-inside-loop, bad-flow-first|middle|last, "
+    "goto-both-sides-of-label; ellipsis, ellipsis-without-instructions|with-instructions[@flow-end|block-end|middle], ellipsis-in:top|if|else|while|when, ellipsis-inside-loop, "
+    "ellipsis-comment-dropped-by-parse-mode, source-mapping:on|off; bad-flows0|1|2, bad:<keyword>[-group], bad-in:top|while|if|elif|else|when, bad-inside-loop, bad-flow-first|middle|last, "
     "valid-flows-behind-bad-flow, bad-flow-with-composites|otherwise-primitive, attemptsN, outcomes:accepted|rejected; form:*, kind:*, place:*, repeated-member/<form>, member-twice-in-alternative, dup-alternative+distinct>=2/"
     "<form>, dup-alternative/all-same, dup-alternative-reordered, dnf-altsN, refs:first|all; when-late-exit@flow-end / @followed / @block-end, bare|mixed+only-exit-branch"
     "@single|inner|outer, loop-nestN, elif-in-loop, exit-in-when; v2added: convsN, batchesN, flows-in-batchN, added:loops|groups, added-has:if|while|when|group, "
@@ -157,6 +166,11 @@ ASSUMPTIONS = [
     "Colang 1.0: a `jump` element without `_next` is an unresolved jump (the interpreter adds `_next` to the position unconditionally); a "
     "remaining `goto` / `label` element likewise; where several gotos name one label nothing beyond closure (and, as before, that a goto "
     "lands on the element carrying its label) is asserted",
+    "Colang 1.0 value generation: `$x = ...` is a statement the loader accepts with or without a comment above it (without one the "
+    "generate_value action is compiled with instructions None - observed behaviour, nothing is asserted about the instructions); whatever "
+    "it is compiled into, every offset of the flow must still land inside the flow and every goto on the element carrying its label. Texts "
+    "are parsed with include_source_mapping True (default of parse_colang_file, what RailsConfig does) or False (comments dropped before "
+    "compilation); the extra `_source_mapping` keys of the elements are ignored by the predicate",
     "scope closure is checked per scope name (every Begin is followed by an End, no End before its Begin), not per control-flow path",
     "duplicate labels are not forbidden by the statement and are not reported",
     "a shipped 2.x file that references flows defined outside the standard library and its own directory is counted as skipped",
@@ -218,6 +232,7 @@ def _version_of(rel):
 def enumerate_cases(tier):
     for rel in _co_files():
         yield {"leg": "file", "path": rel}
+    yield from _v1_ellipsis_family()
     yield from _v1_when_family()
     yield from _v1_when_loop_family()
     yield from _v1_goto_family()
@@ -229,6 +244,8 @@ def enumerate_cases(tier):
 
 _V1_EXITS = ["return", "return", "return $v0", "stop", "abort"]  # statements that leave the flow
 _V1_TERMINATORS = ("return", "stop", "abort", "break", "continue")
+_V1_GEN_HOWS = ["bare", "bare", "bare", "blank", "comment", "comment"]  # what stands right above a `$x = ...` statement
+_V1_GEN_ABOVE = {"bare": [], "blank": [""], "comment": ["# Extract the value the user asked for."]}
 
 
 def _v1_first_word(line):
@@ -257,7 +274,7 @@ def _v1_block(draw, depth, labels, in_loop):
     return / stop / abort as the last statement of a block."""
     lines = []
     for _ in range(draw(st.integers(1, 4))):
-        kinds = ["bot", "bot", "set", "label", "exit"]
+        kinds = ["bot", "bot", "set", "label", "exit", "gen"]
         if depth > 0:
             kinds += ["if", "while", "when"]
         if in_loop:
@@ -271,6 +288,11 @@ def _v1_block(draw, depth, labels, in_loop):
             name = f"l{len(labels)}"
             labels.append(name)
             lines.append(draw(st.sampled_from(["label", "checkpoint"])) + " " + name)
+        elif k == "gen":
+            # value generation `$x = ...` (compiled into a generate_value action): the instructions are the comment right above the
+            # statement - mostly there is none (bare, or only a blank line above), sometimes one (control)
+            how = draw(st.sampled_from(_V1_GEN_HOWS))
+            lines += _V1_GEN_ABOVE[how] + [f"$g{draw(st.integers(0, 2))} = ..."]
         elif k == "if":
             lines.append(f"if $v{draw(st.integers(0, 1))} == {draw(st.integers(0, 3))}")
             lines += ["  " + x for x in draw(_v1_block(depth - 1, labels, in_loop))]
@@ -342,7 +364,9 @@ def _v1_offsets_case(draw):
         head = draw(st.sampled_from(["define flow", "define flow", "define subflow"]))
         flows.append([f"{head} gen{fi}", f"  user intent start{fi}"] + ["  " + x for x in body])
     text = "\n".join("\n".join(f) for f in flows) + "\n"
-    return {"leg": "v1text", "text": text}
+    # parse mode: with source mapping (what the configuration loader does; comments reach the compiler as instructions of `$x = ...`)
+    # or without (comments are dropped: every value generation is compiled without instructions)
+    return {"leg": "v1text", "text": text, "source_mapping": draw(st.booleans())}
 
 
 def _v1_when_family():
@@ -380,6 +404,36 @@ def _v1_when_family():
                 for cname, body in contexts.items():
                     text = "define subflow fam\n  user intent start\n" + "\n".join("  " + x for x in body) + "\n"
                     yield {"leg": "v1text", "text": text, "family": "when-exit/" + cname}
+
+
+def _v1_ellipsis_family():
+    """Enumerated: one value-generation statement `$name = ...` x what stands right above it (nothing / a blank line / an instructions
+    comment - the control) x its position in its block (only statement / first / middle / last) x the block (top level, if block
+    without / with else, else block, while body, if block in front of a break inside a while body, first / last branch of a when
+    chain, while body inside an if block) x what follows the block (flow end / one statement / a label that a goto in front of the
+    block jumps to) x parsed with / without source mapping."""
+    ind = lambda ls: ["  " + x for x in ls]  # noqa: E731
+    for how in ("bare", "blank", "comment"):
+        g = _V1_GEN_ABOVE[how] + ["$name = ..."]
+        for pos in ("only", "first", "middle", "last"):
+            blk = {"only": g, "first": g + ["bot say b1"], "middle": ["bot say b0"] + g + ["bot say b1"], "last": ["bot say b0"] + g}[pos]
+            places = {
+                "top": blk,
+                "if": ["if $v0 == 1"] + ind(blk),
+                "if-then-with-else": ["if $v0 == 1"] + ind(blk) + ["else", "  bot say other"],
+                "else": ["if $v0 == 1", "  bot say other", "else"] + ind(blk),
+                "while": ["while $v0 < 2"] + ind(["$v0 = $v0 + 1"] + blk),
+                "if-break-in-while": ["while $v0 < 2"] + ind(["$v0 = $v0 + 1", "if $v1 == 1"] + ind(blk + ["break"]) + ["bot say again"]),
+                "when-first": ["when user intent w0"] + ind(blk) + ["else when user intent w1", "  bot say other"],
+                "when-last": ["when user intent w0", "  bot say other", "else when user intent w1"] + ind(blk),
+                "while-in-if": ["if $v1 == 1"] + ind(["while $v0 < 2"] + ind(["$v0 = $v0 + 1"] + blk)),
+            }
+            for pname, body in places.items():
+                for ctx in ("flow-end", "followed", "goto-over"):
+                    lines = body if ctx == "flow-end" else body + ["bot say after"] if ctx == "followed" else ["if $v2 == 1", "  goto done"] + body + ["label done", "bot say after"]
+                    text = "define flow fam\n  user intent start\n" + "\n".join("  " + x for x in lines) + "\n"
+                    for sm in (True, False):
+                        yield {"leg": "v1text", "text": text, "source_mapping": sm, "family": f"ellipsis/{how}/{pname}"}
 
 
 def _v1_when_loop_family():
@@ -1573,6 +1627,47 @@ def _v1_when_shape(text):
     return sorted(labels)
 
 
+def _v1_ellipsis_shape(text, source_mapping):
+    """Labels for the value-generation statements `$x = ...` of a Colang 1.0 text: with / without instructions (a comment on the line
+    above, blank lines ignored - and only when the text is parsed with source mapping, otherwise comments never reach the compiler), the
+    block they stand in and whether anything follows them in that block / in the flow."""
+    labels = set()
+    flows, cur = [], None
+    for ln in text.split("\n"):
+        if ln.startswith("define "):
+            cur = []
+            flows.append(cur)
+        elif ln.strip() and cur is not None:
+            cur.append((len(ln) - len(ln.lstrip()), ln.strip()))
+    for lines in flows:
+        for i, (ind, txt) in enumerate(lines):
+            if not txt.endswith("= ...") or txt.startswith("#"):
+                continue
+            commented = i > 0 and lines[i - 1][1].startswith("#")
+            kind = "with-instructions" if commented and source_mapping else "without-instructions"
+            opener = next((t for d, t in reversed(lines[:i]) if d < ind and not t.startswith("#")), None)
+            blk = "top" if opener is None else "when" if opener.startswith(("when ", "else when ")) else opener.split(" ")[0]
+            stmts_behind = [(d, t) for d, t in lines[i + 1:] if not t.startswith("#")]
+            where = "flow-end" if not stmts_behind else "block-end" if stmts_behind[0][0] < ind else "middle"
+            in_loop = any(t.startswith("while ") for d, t in _v1_enclosing(lines, i))
+            labels.update(["ellipsis", "ellipsis-" + kind, "ellipsis-in:" + blk, f"ellipsis-{kind}@{where}"])
+            if commented and not source_mapping:
+                labels.add("ellipsis-comment-dropped-by-parse-mode")
+            if in_loop:
+                labels.add("ellipsis-inside-loop")
+    return sorted(labels)
+
+
+def _v1_enclosing(lines, i):
+    """The block openers around line i of a flow given as (indentation, text) pairs, innermost first."""
+    out, ind = [], lines[i][0]
+    for d, t in reversed(lines[:i]):
+        if d < ind and not t.startswith("#"):
+            out.append((d, t))
+            ind = d
+    return out
+
+
 def _v1_goto_shape(text):
     """Labels for the gotos of a Colang 1.0 text: how many gotos name the same label and on which side of it they stand."""
     labels = set()
@@ -1769,8 +1864,9 @@ def prop(case):
         from nemoguardrails.colang import parse_colang_file
 
         text = case["text"]
+        srcmap = bool(case.get("source_mapping", False))
         try:
-            parsed = parse_colang_file(filename="gen.co", content=text, include_source_mapping=False, version="1.0")
+            parsed = parse_colang_file(filename="gen.co", content=text, include_source_mapping=srcmap, version="1.0")
         except Exception as e:
             return ok(skip="v1 text not accepted by the parser: " + type(e).__name__, labels=["v1text", "rejected"])
         total = 0
@@ -1780,11 +1876,12 @@ def prop(case):
             if bad:
                 raise Violation("v1-" + bad[0][0], f"flow {fl.get('id')!r}: {bad[0][1]}\n{text}")
         labels = ["v1text"] + [k for k in ("label", "checkpoint", "goto", "when", "while", "break", "continue", "return", "stop", "abort", "subflow") if k + " " in text or text.rstrip().endswith(k) or ("\n" + k) in text.replace(" ", "")]
-        labels += _v1_when_shape(text) + _v1_goto_shape(text)
+        labels += _v1_when_shape(text) + _v1_goto_shape(text) + _v1_ellipsis_shape(text, srcmap)
+        labels.append("source-mapping:" + ("on" if srcmap else "off"))
         if case.get("family"):
             labels.append("family:" + case["family"].split("/")[0])
             labels.append("family:" + case["family"])
-        counters = {"v1text:" + x: 1 for x in labels if x.startswith("goto-")}  # the label histogram of the evidence keeps the top 60 only
+        counters = {"v1text:" + x: 1 for x in labels if x.startswith(("goto-", "ellipsis", "source-mapping:"))}  # the label histogram of the evidence keeps the top 60 only
         return ok(nt=total >= 3, labels=labels, view={"program": text, "jump_offsets": total}, counters=counters)
     if case["leg"] == "v2loops":
         text = _v2l_text(case["body"])
